@@ -342,6 +342,43 @@ func c02(repo string, out *fg.Out) error {
 	out.JSON["normUnits"] = nt.json()
 	out.JSON["typedUnits"] = tt.json()
 
+	// --- decodeTypedColumns: does the non-array branch fall back when an array was already decoded
+	// under the same key (generic map is last-wins)?  `if !isArrayCode(vc) { if _, dup := typed[name]; dup { return … } … }`
+	cfn := typedF.FuncDecl("MessagePackDecoder", "decodeTypedColumns")
+	if cfn == nil {
+		cfn = typedF.FuncDecl("", "decodeTypedColumns")
+	}
+	if cfn == nil {
+		return fmt.Errorf("func decodeTypedColumns not found in msgpack_typed.go")
+	}
+	var nonArr *ast.IfStmt
+	ast.Inspect(cfn, func(x ast.Node) bool {
+		if is, ok := x.(*ast.IfStmt); ok && typedF.Text(is.Cond) == "!isArrayCode(vc)" {
+			nonArr = is
+		}
+		return true
+	})
+	if nonArr == nil {
+		return fmt.Errorf("decodeTypedColumns: `if !isArrayCode(vc)` branch not found")
+	}
+	dupFalls := false
+	for _, st := range nonArr.Body.List {
+		is, ok := st.(*ast.IfStmt)
+		if !ok || is.Init == nil {
+			continue
+		}
+		if typedF.Text(is.Init) == "_, dup := typed[name]" && typedF.Text(is.Cond) == "dup" && len(is.Body.List) == 1 {
+			if _, isRet := is.Body.List[0].(*ast.ReturnStmt); isRet {
+				dupFalls = true
+			}
+		}
+	}
+	if !strings.Contains(typedF.Text(nonArr.Body), "dec.Skip()") {
+		return fmt.Errorf("decodeTypedColumns: non-array branch no longer Skip()s the value")
+	}
+	fmt.Fprintf(L, "def nonArrayDupFallsBack : Bool := %v\n\n", dupFalls)
+	out.JSON["nonArrayDupFallsBack"] = dupFalls
+
 	// --- accepted dynamic types
 	for _, it := range []struct {
 		f    *fg.File
